@@ -124,7 +124,10 @@ def store_strategy():
   ns = st.lists(comp, max_size=3)
   nsidx = st.integers(0, 3)
   key = st.sampled_from(KEYS)
-  tref = st.one_of(st.integers(0, 5), st.just('missing'))
+  tref = st.one_of(st.integers(0, 5), st.integers(0, 5), st.just('missing'),
+                   st.just('missing'),
+                   # not the id of any trial: rejected, nothing changes
+                   st.sampled_from(['bad:0', 'bad:-3', 'bad:abc']))
   item = st.one_of(
       st.tuples(st.just('study'), nsidx, key, _value()),
       st.tuples(tref, nsidx, key, _value())).map(list)
@@ -231,6 +234,9 @@ def check_store(case):
     overwrote = False
 
     def resolve(tref):
+      if isinstance(tref, str) and tref.startswith('bad:'):
+        out.cls('invalid_trial_id')
+        return tref[4:], False
       if tref == 'missing' or not trials:
         return (max(trials) if trials else 0) + 7, False
       return trials[tref % len(trials)], True
